@@ -29,6 +29,8 @@ KNOWN = common.known_for("C10")  # entries live in /verif/known_findings.json
 ASSUMPTIONS = [
     "the decision-level theorems are about the function regenerated from SEVM.jumpi; that the interpreter loop applies it at every JUMPI and keeps the visit counters per path is covered by the L3 tie only",
     "the reference interpreter (coq/Spec/Evm.v, extracted) is the EVM oracle",
+    "runs with several tests: a report line counts for a test when it names the test's full signature, or names no test of the contract and was printed between the previous result line of the contract and this test's result line (stdout and stderr merged, unbuffered)",
+    "the report model abstracts message texts by the tuple of interpolated values (texts of different tests differ iff these differ); that SEVM.run emits the warning once per abandoned state and that one process runs all contracts is observed at L3",
     "the extracted model and driver are faithful to the Coq definitions (extraction is trusted)",
 ]
 
@@ -59,8 +61,9 @@ def worker(task):
         else:
             r = p.run(task["options"], timeout=task.get("timeout", 120))
             units, order = None, None
-    return {"seconds": round(time.time() - t0, 1), "brief": r.brief(), "warnings": r.warnings, "out": r.out[-3000:] if units is None else "\n".join(x.rstrip() for x in r.out.splitlines() if x.strip())[-3000:],
-            "err": r.err[-2500:], "units": units, "order": order}
+    squeeze = lambda t: "\n".join(x.rstrip() for x in t.splitlines() if x.strip())  # noqa: E731  (rich pads every log line to COLUMNS)
+    return {"seconds": round(time.time() - t0, 1), "brief": r.brief(), "warnings": r.warnings, "out": squeeze(r.out)[-3000:],
+            "err": squeeze(r.err)[-2500:], "units": units, "order": order}
 
 
 # ----------------------------------------------------------------------------- ground truth
@@ -266,7 +269,19 @@ def run(rep, tier):
         for c, v in inv:
             K, L = c["params"]["K"], int(c["options"][1])
             cut = True   # the trip count is an unbounded symbolic argument: the loop is always cut at --loop
-            if (v["brief"]["tests"].get(G.build(c)["test"]) or {}).get("status") is None:
+            ran = (v["brief"]["tests"].get(G.build(c)["test"]) or {}).get("status") is not None
+            if c["family"] == "setup":
+                # setup(): which path is handed to the tests.  Success paths of setUpSymbolic: `n > 100` returns; the loop
+                # reaches i == K (and stores) only when --loop allows K iterations; the other paths revert.
+                n_ok = 1 + (1 if L >= K else 0)
+                errs = [0] * n_ok + [1, 1]
+                [ms] = m.batch([("c03_setup", [len(errs), *errs, *([1] * len(errs))])])
+                text = v["out"] + v["err"]
+                seen = 0 if ran else 2 if "Multiple paths were found" in text else 1 if "No successful path found" in text else -1
+                rep.count("runner_model", f"setup:success_paths={n_ok}:model={ms[0] if ms else None}:halmos={seen}")
+                if ms is None or ms[0] != seen:
+                    rep.fail("broken-tie", f"setup K={K} --loop {L}: setup_select model says {ms} (0 one path / 1 none / 2 multiple) for {n_ok} feasible success paths, halmos: {seen}", case={**c, "output": text[-800:]})
+            if not ran:
                 continue   # setUp failed (e.g. two feasible success paths): no test was run
             if c["family"] == "invariant":
                 call = ("c10_loop_warned", [0, 0, 1 if cut else 0])          # the target transaction hit the bound
